@@ -12,6 +12,7 @@ import Gv.Proofs.EvalLemmas
 import Gv.Proofs.EnumLemmas
 import Gv.Proofs.EnumFail
 import Gv.Proofs.EnumRun
+import Gv.Proofs.EnumCheck
 
 namespace Gv.Props.C08
 open Gv Gv.Str Gv.Eval Gv.Gen
@@ -969,4 +970,170 @@ theorem C08_repr_collision_witness (p : Program) (fuel : Nat) (fr : Frame) (old 
   rw [evalConv_enumc]
   rfl
 end Ex
+/-! ### round 5: checked hypotheses, one total run-time statement, the remaining exact diagnostics (`Gv/Proofs/EnumCheck.lean`) -/
+
+open Gv.EnumRun Gv.EnumCheck in
+/-- **C08_run_total**: the run-time half of C08 as ONE statement over every value, with a checker for its only
+hypothesis.  If `enumPlan` succeeds and the checker `reprInjB sm` accepts the source members (members whose values print
+alike have equal values; sound and complete: `reprInjB_sound`/`_complete`), then on EVERY source value `v` the generated
+switch does what the name `runName cx tmap sm v` prescribes: the chosen name of the source member printing like `v`, else
+`enum:unknown` (also for a value that is not basic) -/
+theorem C08_run_total (c : Converter) (cx : Ctx) (s t : Ty) (path : List PathElem) (st st' : GState) (plan : Conv)
+    (h : enumPlan c cx s t path st = .ok (plan, st')) :
+    ∃ sm tm tmap,
+      enumMembers c cx.cfg.common s = some sm ∧ enumMembers c cx.cfg.common t = some tm ∧
+      enumTransformers c sm tm cx.cfg.transformers [] = .ok tmap ∧
+      (reprInjB sm = true →
+        ∀ (p : Program) (fuel : Nat) (fr : Frame) (v old : Val) (n : Nat),
+          RunsAs cx path tm fr old n (runName cx tmap sm v) (evalConv p (fuel + 1) fr plan v old n)) := by
+  obtain ⟨sm, tm, tmap, hsm, htm, htr, h2, h1⟩ := C08_end_to_end c cx s t path st st' plan h
+  refine ⟨sm, tm, tmap, hsm, htm, htr, ?_⟩
+  intro hinj p fuel fr v old n
+  have hnon : ∀ v : Val, (∀ r, v ≠ .basic r) → RunsAs cx path tm fr old n (runName cx tmap sm v) (evalConv p (fuel + 1) fr plan v old n) := by
+    intro v hv
+    have : runName cx tmap sm v = cx.cfg.common.enumUnknown := by
+      cases v <;> first | rfl | exact absurd rfl (hv _)
+    rw [this]
+    exact h2 p fuel fr v old n (fun sd _ => hv _)
+  cases v with
+  | basic r =>
+    unfold runName
+    simp only []
+    cases hf : sm.find? (fun sd => constRepr sd.val == r) with
+    | some sd =>
+      have hm : sd ∈ sm := List.mem_of_find?_eq_some hf
+      have hr : constRepr sd.val = r := by simpa using List.find?_some hf
+      subst hr
+      exact h1 (reprInjB_sound sm hinj) sd hm p fuel fr old n
+    | none =>
+      refine h2 p fuel fr _ old n ?_
+      intro sd hsd heq
+      have := (List.find?_eq_none.1 hf) sd hsd
+      exact this (by simp [Val.basic.inj heq])
+  | nil => exact hnon _ (fun _ h => by cases h)
+  | ptr _ _ => exact hnon _ (fun _ h => by cases h)
+  | slice _ _ => exact hnon _ (fun _ h => by cases h)
+  | arr _ => exact hnon _ (fun _ h => by cases h)
+  | map _ _ => exact hnon _ (fun _ h => by cases h)
+  | struct _ => exact hnon _ (fun _ h => by cases h)
+  | tok _ _ => exact hnon _ (fun _ h => by cases h)
+  | absent => exact hnon _ (fun _ h => by cases h)
+
+open Gv.EnumFail Gv.EnumCheck in
+/-- exact diagnostic `enumInvalidTarget`: the first failing position (a member after a prefix that went through, or
+`enum:unknown` after all members) names an `@…` that is none of the three actions -/
+theorem C08_invalid_target_diag_iff (c : Converter) (cx : Ctx) (s t : Ty) (path : List PathElem) (st : GState)
+    (sm tm : List ConstDecl) (tmap : List (S × S))
+    (hsm : enumMembers c cx.cfg.common s = some sm) (htm : enumMembers c cx.cfg.common t = some tm)
+    (htr : enumTransformers c sm tm cx.cfg.transformers [] = .ok tmap) :
+    enumPlan c cx s t path st = .error .enumInvalidTarget ↔
+      (∃ pre sd post, sm = pre ++ sd :: post ∧ LoopOK cx st tm tmap pre ∧
+        Settings.isEnumAction (chooseEnumTarget cx.cfg.enumMap tmap sd.name) = true ∧
+        chooseEnumTarget cx.cfg.enumMap tmap sd.name ≠ "@ignore".toList ∧
+        chooseEnumTarget cx.cfg.enumMap tmap sd.name ≠ "@panic".toList ∧
+        chooseEnumTarget cx.cfg.enumMap tmap sd.name ≠ "@error".toList) ∨
+      (LoopOK cx st tm tmap sm ∧ cx.cfg.common.enumUnknown.isEmpty = false ∧
+        Settings.isEnumAction cx.cfg.common.enumUnknown = true ∧ cx.cfg.common.enumUnknown ≠ "@ignore".toList ∧
+        cx.cfg.common.enumUnknown ≠ "@panic".toList ∧ cx.cfg.common.enumUnknown ≠ "@error".toList) := by
+  rw [C08_fail_iff c cx s t path st sm tm tmap hsm htm htr]
+  constructor
+  · rintro (⟨pre, sd, post, hl, hpre, h | ⟨_, h, _⟩⟩ | ⟨_, _, h⟩ | ⟨hl, hu, h⟩ | ⟨_, _, _, h, _⟩)
+    · exact .inl ⟨pre, sd, post, hl, hpre, (enumActionDiag_invalid_iff cx st tm _).1 h⟩
+    · cases h
+    · cases h
+    · exact .inr ⟨hl, hu, (enumActionDiag_invalid_iff cx st tm _).1 h⟩
+    · cases h
+  · rintro (⟨pre, sd, post, hl, hpre, h⟩ | ⟨hl, hu, h⟩)
+    · exact .inl ⟨pre, sd, post, hl, hpre, .inl ((enumActionDiag_invalid_iff cx st tm _).2 h)⟩
+    · exact .inr (.inr (.inl ⟨hl, hu, (enumActionDiag_invalid_iff cx st tm _).2 h⟩))
+
+open Gv.EnumFail Gv.EnumCheck in
+/-- exact diagnostic `enumErrorNotAllowed`: the first failing position names `@error` and `ReturnError` refuses (some method
+on the origin path is explicit without an error result) -/
+theorem C08_error_not_allowed_diag_iff (c : Converter) (cx : Ctx) (s t : Ty) (path : List PathElem) (st : GState)
+    (sm tm : List ConstDecl) (tmap : List (S × S))
+    (hsm : enumMembers c cx.cfg.common s = some sm) (htm : enumMembers c cx.cfg.common t = some tm)
+    (htr : enumTransformers c sm tm cx.cfg.transformers [] = .ok tmap) :
+    enumPlan c cx s t path st = .error .enumErrorNotAllowed ↔
+      (∃ s1, returnError cx st = .ok (false, s1)) ∧
+      ((∃ pre sd post, sm = pre ++ sd :: post ∧ LoopOK cx st tm tmap pre ∧
+          chooseEnumTarget cx.cfg.enumMap tmap sd.name = "@error".toList) ∨
+       (LoopOK cx st tm tmap sm ∧ cx.cfg.common.enumUnknown = "@error".toList)) := by
+  rw [C08_fail_iff c cx s t path st sm tm tmap hsm htm htr]
+  constructor
+  · rintro (⟨pre, sd, post, hl, hpre, h | ⟨_, h, _⟩⟩ | ⟨_, _, h⟩ | ⟨hl, hu, h⟩ | ⟨_, _, _, h, _⟩)
+    · obtain ⟨h1, h2⟩ := (enumActionDiag_notAllowed_iff cx st tm _).1 h
+      exact ⟨h2, .inl ⟨pre, sd, post, hl, hpre, h1⟩⟩
+    · cases h
+    · cases h
+    · obtain ⟨h1, h2⟩ := (enumActionDiag_notAllowed_iff cx st tm _).1 h
+      exact ⟨h2, .inr ⟨hl, h1⟩⟩
+    · cases h
+  · rintro ⟨hre, ⟨pre, sd, post, hl, hpre, h⟩ | ⟨hl, h⟩⟩
+    · exact .inl ⟨pre, sd, post, hl, hpre, .inl ((enumActionDiag_notAllowed_iff cx st tm _).2 ⟨h, hre⟩)⟩
+    · refine .inr (.inr (.inl ⟨hl, ?_, (enumActionDiag_notAllowed_iff cx st tm _).2 ⟨h, hre⟩⟩))
+      rw [h]; rfl
+
+open Gv.EnumFail in
+/-- exact diagnostic `enumKeyMissing`: everything else went through, and an `enum:map` key of the method's own target is no
+source member -/
+theorem C08_key_missing_diag_iff (c : Converter) (cx : Ctx) (s t : Ty) (path : List PathElem) (st : GState)
+    (sm tm : List ConstDecl) (tmap : List (S × S))
+    (hsm : enumMembers c cx.cfg.common s = some sm) (htm : enumMembers c cx.cfg.common t = some tm)
+    (htr : enumTransformers c sm tm cx.cfg.transformers [] = .ok tmap) :
+    enumPlan c cx s t path st = .error .enumKeyMissing ↔
+      LoopOK cx st tm tmap sm ∧ cx.cfg.common.enumUnknown.isEmpty = false ∧
+      enumResolves cx st tm cx.cfg.common.enumUnknown = true ∧ (cx.fieldsTarget == t) = true ∧
+      ∃ k, k ∈ cx.cfg.enumMap.map (·.1) ∧ ∀ sd, sd ∈ sm → sd.name ≠ k := by
+  rw [C08_fail_iff c cx s t path st sm tm tmap hsm htm htr]
+  constructor
+  · rintro (⟨pre, sd, post, hl, hpre, h | ⟨_, h, _⟩⟩ | ⟨_, _, h⟩ | ⟨hl, hu, h⟩ | ⟨hl, hu, hr, _, hft, hk⟩)
+    · rcases enumActionDiag_kinds cx st tm _ _ h with h | h | h | h <;> cases h
+    · cases h
+    · cases h
+    · rcases enumActionDiag_kinds cx st tm _ _ h with h | h | h | h <;> cases h
+    · exact ⟨hl, hu, hr, hft, hk⟩
+  · rintro ⟨hl, hu, hr, hft, hk⟩
+    exact .inr (.inr (.inr ⟨hl, hu, hr, rfl, hft, hk⟩))
+
+namespace Ex
+open Gv.EnumRun Gv.EnumCheck Gv.EnumFail
+
+example : reprInjB color.consts = true := by decide
+/-- which name a value follows: 0 is `Crimson`'s value (↦ `Blue`), 9 is nobody's (↦ enum:unknown) -/
+example : runName (cx0 goodMap "@panic".toList) [] color.consts (.basic (constRepr (.int 0))) = "Blue".toList := by decide
+example : runName (cx0 goodMap "@panic".toList) [] color.consts (.basic "9".toList) = "@panic".toList := by decide
+example : runName (cx0 goodMap "@panic".toList) [] color.consts .nil = "@panic".toList := rfl
+/-- the total statement applied: on the value 1 (`Teal` ↦ `Red` = 7) and on a nil value (↦ `@panic`) -/
+example (p : Program) (fuel : Nat) (fr : Frame) (v old : Val) (n : Nat) :
+    RunsAs (cx0 goodMap "@panic".toList) [] shade.consts fr old n (runName (cx0 goodMap "@panic".toList) [] color.consts v)
+      (evalConv p (fuel + 1) fr (.enumc casesGood .panic) v old n) := by
+  obtain ⟨sm, tm, tmap, hsm, htm, htr, hrun⟩ :=
+    C08_run_total conv (cx0 goodMap "@panic".toList) tyC tyS [] (st0 true) (st0 true) _ (plan_of _ .panic rfl rfl)
+  cases hsm; cases htm
+  have : tmap = [] := by
+    have h0 : enumTransformers conv color.consts shade.consts (cx0 goodMap "@panic".toList).cfg.transformers [] = .ok [] := rfl
+    rw [h0] at htr; cases htr; rfl
+  subst this
+  exact hrun (by decide) p fuel fr v old n
+
+/-- the three diagnostics, on the converter: an unknown `@foo` policy, `@error` in an explicit method, a stray enum:map key -/
+example : enumPlan conv (cx0 goodMap "@foo".toList) tyC tyS [] (st0 true) = .error .enumInvalidTarget := by rfl
+example : LoopOK (cx0 goodMap "@foo".toList) (st0 true) shade.consts [] color.consts := by
+  rcases (C08_invalid_target_diag_iff conv (cx0 goodMap "@foo".toList) tyC tyS [] (st0 true) color.consts shade.consts [] rfl rfl rfl).1
+    (by rfl) with ⟨pre, sd, post, hl, _, h1, _, _, _⟩ | ⟨hl, _⟩
+  · exfalso
+    have hmem : sd ∈ color.consts := by rw [hl]; simp
+    simp only [color, List.mem_cons, List.not_mem_nil, or_false] at hmem
+    rcases hmem with rfl | rfl | rfl <;> revert h1 <;> decide
+  · exact hl
+example : ∃ s1, returnError (cx0 goodMap "@error".toList) (st0 true) = .ok (false, s1) :=
+  ((C08_error_not_allowed_diag_iff conv (cx0 goodMap "@error".toList) tyC tyS [] (st0 true) color.consts shade.consts [] rfl rfl rfl).1
+    (by rfl)).1
+example : ∃ k, k ∈ (cx0 (goodMap ++ [("Pink".toList, "Red".toList)]) "@panic".toList).cfg.enumMap.map (·.1) ∧
+    ∀ sd, sd ∈ color.consts → sd.name ≠ k :=
+  ((C08_key_missing_diag_iff conv (cx0 (goodMap ++ [("Pink".toList, "Red".toList)]) "@panic".toList) tyC tyS [] (st0 true)
+    color.consts shade.consts [] rfl rfl rfl).1 (by rfl)).2.2.2.2
+end Ex
+
 end Gv.Props.C08
